@@ -13,6 +13,7 @@
            foreign byte must be what the model predicts for the life cycle read from gen/Shape.v
            (zero when that life cycle is a good discipline).
    CLoc    the engine's evaluation of the access discipline on gen/Access.v, per location.
+   CSharedPool  a package-level sync.Pool variable the engine found in gen/Access.v and whether it is one of the modelled ones.
    CRace   a location the Go race detector complained about: it must be a location the table
            knows and the discipline flags. *)
 From Coq Require Import List ZArith NArith Bool Arith String.
@@ -74,7 +75,8 @@ Inductive c08case :=
 | CUdp (evs : list zuev) (seen : list (Z * list (Z * Z)))
 | CStress (life : string) (procs nconn checked bad : Z)
 | CLoc (loc : string) (ok : bool)
-| CRace (loc : string).
+| CRace (loc : string)
+| CSharedPool (name : string) (known : bool).
 
 Fixpoint beq (a b : list Byte.byte) : bool :=
   match a, b with
@@ -105,11 +107,14 @@ Definition check (c : c08case) : bool :=
       let s := urun udp_disc uinit (map uev_of evs) in
       negb (ubadget s) && forallb (fun p => beq (ugot s (zn (fst p))) (rle (snd p))) seen
   | CStress life procs nconn checked bad =>
-      if String.eqb life "udp" then Z.eqb bad 0 else
+      if String.eqb life "udp" || String.eqb life "verdict" then Z.eqb bad 0 else
       match life_disc life with
       | Some d => if good_discb d then Z.eqb bad 0 else true
       | None => false
       end
   | CLoc loc ok => in_table table loc && Bool.eqb (loc_ok table loc) ok
   | CRace loc => in_table table loc && negb (loc_ok table loc)
+  | CSharedPool name known =>
+      existsb (String.eqb name) shared_pools &&
+      Bool.eqb known (existsb (String.eqb name) ["layer4.bufPool"; "layer4.udpBufPool"])
   end.
